@@ -7,6 +7,11 @@ package column
 import (
 	"math"
 	"reflect"
+	"sync"
+
+	"github.com/kelindar/bitmap"
+	"github.com/kelindar/column/commit"
+	"github.com/kelindar/smutex"
 )
 
 type vAssumeFailed struct{}
@@ -40,6 +45,9 @@ func vForall(lo, hi int, f func(i int) bool) bool {
 
 func vNondet[T any]() (v T) { return }
 
+// vHavocRange: the elements of the slice take unknown values (a model then states what it knows about them).
+func vHavocRange(s any) {}
+
 func vImplies(a, b bool) bool { return !a || b }
 
 // vSame is bit-for-bit equality (for floats: equality of the bit patterns, so NaN == NaN and 0 != -0).
@@ -65,6 +73,11 @@ func vDistinctBacking(a, b any) bool {
 	return ex <= py || ey <= px
 }
 
+// vSameSlice: the two slices are the same view (same position and length) of the same backing array.
+func vSameSlice(a, b []uint64) bool {
+	return len(a) == len(b) && (len(a) == 0 || &a[0] == &b[0])
+}
+
 // vCallCount is ghost state: how often the (unknown) function value f has been called so far.
 func vCallCount(f any) int { return 0 }
 
@@ -77,3 +90,196 @@ func vStep(label string, c bool) { vAssert(label, c) }
 
 // vBit reads bit i of a bitmap without bounds tolerance (i must be inside).
 func vBit(fill []uint64, i uint32) bool { return fill[i>>6]&(1<<(i&63)) != 0 }
+
+// ---------------------------------------------------------------------------------------------
+// Ghost lock state (DESIGN 2.9): which locks the current thread of control holds. The models below replace the
+// lock operations while contracts are checked; they record acquisitions, check the rank order
+// (block latch < collection mutex < column lock) and that nothing is acquired twice or released unheld.
+
+var (
+	vCol    *Collection // the collection under contract (its mutex is tracked)
+	vLatchR [128]int    // read holds per latch shard
+	vLatchW [128]bool   // write hold per latch shard
+	vColR   int         // read holds of the collection mutex
+	vColW   bool        // write hold of the collection mutex
+	vOtherW int         // holds of any other mutex (column locks, key table, log): rank 3+
+)
+
+func vNoLatchHeld() bool {
+	return vForall(0, 128, func(i int) bool { return vLatchR[i] == 0 && !vLatchW[i] })
+}
+
+func vNothingHeld() bool { return vNoLatchHeld() && vColR == 0 && !vColW && vOtherW == 0 }
+
+//@ model smutex.(*SMutex128).Lock
+func vModelLatchLock(m *smutex.SMutex128, shard uint) {
+	vAssert("lock:latch-not-held", vLatchR[shard%128] == 0 && !vLatchW[shard%128])
+	vAssert("lock:rank-latch-first", vColR == 0 && !vColW && vOtherW == 0)
+	vLatchW[shard%128] = true
+}
+
+//@ model smutex.(*SMutex128).Unlock
+func vModelLatchUnlock(m *smutex.SMutex128, shard uint) {
+	vAssert("unlock:latch-held", vLatchW[shard%128])
+	vLatchW[shard%128] = false
+}
+
+//@ model smutex.(*SMutex128).RLock
+func vModelLatchRLock(m *smutex.SMutex128, shard uint) {
+	vAssert("lock:latch-not-write-held", !vLatchW[shard%128])
+	vAssert("lock:rank-latch-first", vColR == 0 && !vColW && vOtherW == 0)
+	vLatchR[shard%128]++
+}
+
+//@ model smutex.(*SMutex128).RUnlock
+func vModelLatchRUnlock(m *smutex.SMutex128, shard uint) {
+	vAssert("unlock:latch-read-held", vLatchR[shard%128] > 0)
+	vLatchR[shard%128]--
+}
+
+//@ model sync.(*RWMutex).Lock
+func vModelRWLock(m *sync.RWMutex) {
+	if vCol != nil && m == &vCol.lock {
+		vAssert("lock:collection-mutex-not-held", !vColW && vColR == 0)
+		vAssert("lock:rank-mutex-before-column-locks", vOtherW == 0)
+		vColW = true
+		return
+	}
+	vOtherW++
+}
+
+//@ model sync.(*RWMutex).Unlock
+func vModelRWUnlock(m *sync.RWMutex) {
+	if vCol != nil && m == &vCol.lock {
+		vAssert("unlock:collection-mutex-held", vColW)
+		vColW = false
+		return
+	}
+	vAssert("unlock:held", vOtherW > 0)
+	vOtherW--
+}
+
+//@ model sync.(*RWMutex).RLock
+func vModelRWRLock(m *sync.RWMutex) {
+	if vCol != nil && m == &vCol.lock {
+		vAssert("lock:collection-mutex-not-write-held", !vColW)
+		vAssert("lock:rank-mutex-before-column-locks", vOtherW == 0)
+		vColR++
+		return
+	}
+	vOtherW++
+}
+
+//@ model sync.(*RWMutex).RUnlock
+func vModelRWRUnlock(m *sync.RWMutex) {
+	if vCol != nil && m == &vCol.lock {
+		vAssert("unlock:collection-mutex-read-held", vColR > 0)
+		vColR--
+		return
+	}
+	vAssert("unlock:held", vOtherW > 0)
+	vOtherW--
+}
+
+//@ model sync.(*Mutex).Lock
+func vModelMutexLock(m *sync.Mutex) { vOtherW++ }
+
+//@ model sync.(*Mutex).Unlock
+func vModelMutexUnlock(m *sync.Mutex) {
+	vAssert("unlock:held", vOtherW > 0)
+	vOtherW--
+}
+
+// ---------------------------------------------------------------------------------------------
+// Dependency models (assumed contracts in executable form, DESIGN section 5). Each is named in the trusted base
+// of every evidence file that uses it.
+
+// bitmap.Range: calls fn for set bits only. Per-element obligations are checked for one arbitrary set bit; that every
+// set bit is visited once, in ascending order, is the dependency's assumed contract.
+//
+//@ model bitmap.(Bitmap).Range
+func vModelBitmapRange(dst bitmap.Bitmap, fn func(x uint32)) {
+	x := vNondet[uint32]()
+	if int(x>>6) < len(dst) && vBit(dst, x) {
+		fn(x)
+	}
+}
+
+// bitmap.Filter: asks f for set bits only and clears exactly the bits f rejects (one arbitrary set bit per check).
+//
+//@ model bitmap.(*Bitmap).Filter
+func vModelBitmapFilter(dst *bitmap.Bitmap, f func(x uint32) bool) {
+	x := vNondet[uint32]()
+	d := *dst
+	if int(x>>6) < len(d) && vBit(d, x) {
+		if !f(x) {
+			d[x>>6] &^= 1 << (x & 63)
+		}
+	}
+}
+
+// vLastCount is ghost: the value the last bitmap.Count call returned.
+var vLastCount int
+
+//@ model bitmap.(Bitmap).Count
+func vModelBitmapCount(dst bitmap.Bitmap) int {
+	n := vNondet[int]()
+	vAssume(0 <= n && n <= len(dst)*64)
+	vLastCount = n
+	return n
+}
+
+// bitmap.And / AndNot / Or with one operand, word by word (the AVX2 kernels are assumed equal to the generic code).
+//
+//@ model bitmap.(*Bitmap).And
+func vModelBitmapAnd(dst *bitmap.Bitmap, other bitmap.Bitmap, extra ...bitmap.Bitmap) {
+	vAssert("model:and-one-operand", len(extra) == 0)
+	d := *dst
+	old := append([]uint64(nil), d...)
+	n := len(d)
+	if len(other) < n {
+		n = len(other)
+	}
+	vHavocRange(d)
+	vAssume(vForall(0, len(d), func(i int) bool {
+		if i < n {
+			return d[i] == old[i]&other[i]
+		}
+		return d[i] == 0
+	}))
+	*dst = d[:n]
+}
+
+//@ model bitmap.(*Bitmap).AndNot
+func vModelBitmapAndNot(dst *bitmap.Bitmap, other bitmap.Bitmap, extra ...bitmap.Bitmap) {
+	vAssert("model:andnot-one-operand", len(extra) == 0)
+	d := *dst
+	old := append([]uint64(nil), d...)
+	vHavocRange(d)
+	vAssume(vForall(0, len(d), func(i int) bool {
+		if i < len(other) {
+			return d[i] == old[i]&^other[i]
+		}
+		return d[i] == old[i]
+	}))
+}
+
+// vNextID is ghost: the process-wide commit id counter (only grows).
+var vNextID uint64
+
+//@ model commit.Next
+func vModelCommitNext() uint64 {
+	vAssert("id-drawn-inside-latch", !vNoLatchWriteHeld())
+	vAssume(vNextID < 1<<62)
+	vNextID++
+	return vNextID
+}
+
+func vNoLatchWriteHeld() bool {
+	return vForall(0, 128, func(i int) bool { return !vLatchW[i] })
+}
+
+// Column methods called through the interface on an unknown implementation.
+//
+//@ model column.Column.Index
+func vModelColumnIndex(c Column, chunk commit.Chunk) bitmap.Bitmap { return vNondet[bitmap.Bitmap]() }
